@@ -14,6 +14,7 @@ def opTypeOf (j : Json) : R Json := do
   let t := match via with
     | "registry" => registryType n
     | "jsonTop" | "jsonNested" | "jsonList" | "jsonItemList" => jsonType n hooks
+    | "jsonForeignSibling" | "jsonTopForeign" | "jsonAnonTop" | "jsonAnonNested" | "jsonAnonList" => jsonType n hooks
     | "gobTop" | "gobNested" | "gobList" | "gobItemList" => gobType n
     | _ => "?"
   if t == "mismatch" then return Json.mkObj [("outside", Json.bool true)]   -- registry and switches disagree on the struct: no prediction
